@@ -19,7 +19,14 @@ ASSUMPTIONS = ["the real snarkjsbackend.prove() is run in a scratch directory; t
                "sequences of INDEPENDENT runs in one working directory (trace cleared between runs; a bigger circuit followed by a smaller "
                "one, equal and growing sizes; random bytes or a longer file beginning like a valid export present under either name before "
                "the first run): after every run both files must be byte-identical to the export of the same trace into an empty directory "
-               "(differs-from-fresh-run) and decode without trailing bytes; read-only or non-regular pre-existing files are not driven"]
+               "(differs-from-fresh-run) and decode without trailing bytes; read-only or non-regular pre-existing files are not driven",
+               "the trace every export of a staged / faulted run is judged against is the one the HARNESS installed (accumulated from the "
+               "case line), never the backend's in-memory lists read back after an earlier prove(); every such export is also compared "
+               "byte for byte with the export of the same accumulated trace by a second interpreter that has done nothing else but "
+               "successful exports of directly installed traces (differs-from-fresh-process)",
+               "faults at the write stage are limited to what works for any user id: a directory / a dangling symbolic link under the "
+               "name of either output file, the working directory removed; prove() raising there is expected and not judged, the exports "
+               "AFTER it in the same interpreter are"]
 PARTIAL = []
 P = common.BN128
 GOLDILOCKS = 2 ** 64 - 2 ** 32 + 1
@@ -53,7 +60,7 @@ def direct_traces(rnd, n, p=P, tag="d"):
     return out
 
 
-STAGE_KINDS = ["full", "full", "wires-only", "wires-only", "constraints-only", "nothing"]
+STAGE_KINDS = ["full", "full", "wires-only", "wires-only", "constraints-only", "nothing", "public-and-private", "public-and-private"]
 
 
 def staged_traces(rnd, n, p=P, tag="s"):
@@ -71,11 +78,70 @@ def staged_traces(rnd, n, p=P, tag="s"):
                 if a + b == 0: a = 1
                 st["pub"] = [rand_val(rnd, p) for _ in range(a)]; st["priv"] = [rand_val(rnd, p) for _ in range(b)]
                 npub += a; npriv += b
+            if kind == "public-and-private":
+                # new PUBLIC and new private values after an export, and constraints over OLD private wires, old and new public ones
+                a = rnd.randrange(1, 3); b = rnd.randrange(1, 3)
+                st["pub"] = [rand_val(rnd, p) for _ in range(a)]; st["priv"] = [rand_val(rnd, p) for _ in range(b)]
+                old_priv = list(range(-npriv, 0)) or [-1]; npub += a; npriv += b
+                def lc():
+                    ks = {rnd.choice(old_priv), rnd.randrange(-npriv, npub + 1), rnd.randrange(0, npub + 1)}
+                    ks = list(ks); rnd.shuffle(ks)
+                    return ",".join(f"{k}:{rnd.choice([1, -1, 2, p - 1, rnd.randrange(-2 ** 258, 2 ** 258)])}" for k in ks)
+                st["cons"] = ";".join("#".join(lc() for _ in range(3)) for _ in range(rnd.randrange(1, 4)))
             if kind in ("full", "constraints-only"):
                 st["cons"] = rand_cons(rnd, p, npub, npriv, rnd.randrange(1, 4))
             stages.append(st); kinds.append(kind)
         out.append((f"JS|{tag}{i}|{p}|" + json.dumps(stages), kinds))
     return out
+
+
+def accumulated(stages):
+    """the trace after each stage as the harness installed it: 'pubs|privs|cons' per stage, independent of the backend's lists"""
+    pubs, privs, cons, out = [], [], [], []
+    for st in stages:
+        pubs += [int(x) for x in st.get("pub", [])]; privs += [int(x) for x in st.get("priv", [])]
+        cons += [c for c in st.get("cons", "").split(";") if c]
+        out.append(f"{','.join(map(str, pubs))}|{','.join(map(str, privs))}|{';'.join(cons)}")
+    return out
+
+
+FAULTS = [("directory-in-the-way", 0), ("directory-in-the-way", 1), ("dangling-link", 0), ("dangling-link", 1), ("directory-removed", None)]
+FAULT_SHAPES = ["FR", "FR", "RFR", "FFR", "FRR", "RFRFR"]            # F = a run whose prove() meets the obstacle, R = a regular run
+
+
+def faulted_traces(rnd, n, p=P, tag="f", names=("witness.wtns", "circuit.r1cs")):
+    """runs in ONE interpreter, some of which fail at the WRITE stage (an obstacle under the name of the first / second output file, or no
+    working directory), followed by regular runs: returns (line, [fault label or None per run])"""
+    import json
+    out = []
+    for i in range(n):
+        shape = FAULT_SHAPES[i % len(FAULT_SHAPES)]
+        runs = []; labels = []
+        for ch in shape:
+            t = one_trace(rnd, p, rnd.choice(["small", "mid", "mid", "big"]))
+            if ch == "F":
+                kind, which = FAULTS[i % len(FAULTS)] if i < len(FAULTS) and not runs else rnd.choice(FAULTS)
+                t["fault"] = {"kind": kind, "name": names[which or 0]}
+                labels.append(kind + ("" if which is None else ":" + ("first-file", "second-file")[which]))
+            else:
+                labels.append(None)
+            runs.append(t)
+        out.append((f"JF|{tag}{i}|{p}|" + json.dumps({"runs": runs}), labels))
+    return out
+
+
+def fresh_process_clause(files, fresh, names=("witness.wtns", "circuit.r1cs")):
+    """direct oracle for exports that follow other exports in the same interpreter: same bytes as a fresh interpreter gives"""
+    for name in names:
+        a, b = files.get(name), fresh.get(name)
+        if a is None or b is None or a == b:
+            continue
+        a, b = bytes.fromhex(a), bytes.fromhex(b)
+        k = next((i for i in range(min(len(a), len(b))) if a[i] != b[i]), min(len(a), len(b)))
+        tail = f"; the file ENDS with the {len(b)} bytes of the fresh export, {len(a) - len(b)} bytes precede them" if len(a) > len(b) and a.endswith(b) else ""
+        return [("differs-from-fresh-process", f"{name} is {len(a)} bytes; the same trace installed and exported by an interpreter that did "
+                 f"nothing before gives {len(b)} bytes; first difference at offset {k}{tail}")]
+    return []
 
 
 SEQ_SHAPES = [("big", "small"), ("big", "small"), ("small", "big", "small"), ("big", "mid", "small"), ("mid", "mid"),
@@ -158,7 +224,7 @@ def byte_class(p):
 
 
 def judge(ex, line, src, status, p, trace_fields, files, model_line, stage=None, prev_files=None, prev_trace=None, fresh=None,
-          before=None):
+          before=None, fresh_process=None):
     """one export: bytes vs the model's encoder, then the independent decoder's clauses; returns the list of (clause, message)"""
     pubs, privs, cons = parse_trace(trace_fields)
     wt_hex, r1_hex = files.get("witness.wtns"), files.get("circuit.r1cs")
@@ -189,6 +255,8 @@ def judge(ex, line, src, status, p, trace_fields, files, model_line, stage=None,
             if (ev(dc[0], wt["values"]) * ev(dc[1], wt["values"]) - ev(dc[2], wt["values"])) % p != 0:
                 bad.append(("decoded-unsatisfied", f"constraint {ci} of circuit.r1cs is not satisfied by witness.wtns"))
                 break
+    if fresh_process is not None:
+        bad = bad + fresh_process_clause(files, fresh_process)
     if bad and prev_files is not None and prev_trace != trace_fields[3:6] and \
             (files.get("witness.wtns"), files.get("circuit.r1cs")) == (prev_files.get("witness.wtns"), prev_files.get("circuit.r1cs")):
         bad = [("stale-files", "the trace grew since the previous export, prove() was called again, and both files are byte-identical "
@@ -204,7 +272,11 @@ def explore(ctx, extended=False, focus=None):
                ">2^256, random}, empty and zero-coefficient linear combinations; (c) staged traces: 2-4 exports of one growing trace in "
                "one process (stages adding wires+constraints / wires only / constraints only / nothing); (d) sequences of 2-4 independent "
                "runs in one directory (big then small, equal, growing; longer / shorter garbage files present beforehand), each compared "
-               "byte for byte with the same trace exported into an empty directory; (b), (c), (d) for primes of 1, 3, 8, "
+               "byte for byte with the same trace exported into an empty directory; (e) runs in one interpreter of which some fail at the write "
+               "stage (directory / dangling link under either output name, working directory removed), the exports after the failure judged; "
+               "(c) and (e) are judged against the trace the harness installed and compared byte for byte with a fresh interpreter's export "
+               "of the same trace, (c) includes stages that add public AND private values and constraints over old private wires; "
+               "(b), (c), (d), (e) for primes of 1, 3, 8, "
                "16, 24, 31 and 32 bytes, (a) for 16-, 31- and 32-byte primes; for each export: bytes of both files vs the Lean encoder "
                "run on the recorded trace, and the independent decoder's checks (well-formedness with the element width taken from the "
                "header, canonical elements, decode = trace, satisfaction transfer); distinct = distinct (source, prime width, #pub, "
@@ -226,11 +298,40 @@ def explore(ctx, extended=False, focus=None):
         seqs += sequence_traces(ctx.rnd, max(16 if fp == P else 4, n // (6 * len(FIELDS))), p=fp, tag=f"q{k}_")
     lines += [l for l, _, _ in seqs]
     pre_of = {l.split("|")[1]: (prek, pre) for l, prek, pre in seqs}
+    faulted = []
+    for k, fp in enumerate(FIELDS):
+        faulted += faulted_traces(ctx.rnd, max(12 if fp == P else 5, n // (8 * len(FIELDS))), p=fp, tag=f"f{k}_")
+    lines += [l for l, _ in faulted]
+    faults_of = {l.split("|")[1]: lab for l, lab in faulted}
+    # one trace built with the backend's LinearCombination operators, exported under several primes (snarkjsp switched between exports)
+    from . import c11
+    multi = c11.multi_field_traces(ctx.rnd, max(24, n // 12), P, tag="m")
+    lines += [l for l, _, _, _ in multi]
+    multi_of = {l.split("|")[1]: (e, fs) for l, e, fs, _ in multi}
+    # what a FRESH interpreter writes for every accumulated / post-fault trace: a second worker that only ever installs a trace and exports it
+    ref_lines = []
+    for l, _ in staged:
+        f = l.split("|", 3)
+        ref_lines += [f"JT|{f[1]}_{k}|{f[2]}|{t}" for k, t in enumerate(accumulated(json.loads(f[3])))]
+    for l, _ in faulted:
+        f = l.split("|", 3)
+        ref_lines += [f"JT|{f[1]}_{k}|{f[2]}|{accumulated([st])[0]}" for k, st in enumerate(json.loads(f[3])["runs"])]
     w = common.Worker("snarkjs", "worker_files.py")
+    w2 = common.Worker("snarkjs", "worker_files.py")
     try:
-        outs = w.run(lines)
+        import concurrent.futures as cf
+        with cf.ThreadPoolExecutor(2) as pool:
+            fut = pool.submit(w2.run, ref_lines)
+            outs = w.run(lines)
+            ref_outs = fut.result()
     finally:
-        w.close()
+        w.close(); w2.close()
+    fresh_of = {}
+    for o in ref_outs:
+        f = o.split("|")
+        if len(f) < 4 or f[1] == "harness-error":
+            raise common.Infra(o[:600])
+        fresh_of[f[0]] = dict(x.split("=", 1) for x in f[6:] if "=" in x)
     jl = []
     recs = []       # (line, src, status, p, trace fields, files, stage, prev_files, prev_trace, stage kind)
     for line, o in zip(lines, outs):
@@ -249,11 +350,36 @@ def explore(ctx, extended=False, focus=None):
             continue
         if line.startswith("JS|"):
             prev_files = prev_trace = None
+            installed = accumulated(json.loads(line.split("|", 3)[3]))
             for k, st in enumerate(json.loads(o.split("|", 3)[3])):
-                tf = [f[0], f[1], f[2]] + st["trace"].split("|")
-                recs.append((line, "staged", f[1], p, tf, st["files"], k + 1, prev_files, prev_trace, kinds_of[f[0]][k]))
-                jl.append(f"J|{f[0]}_{k}|{p}|{st['trace']}")
+                # judged against what was INSTALLED: the backend's lists, read back after an earlier prove(), are not the reference
+                tf = [f[0], f[1], f[2]] + installed[k].split("|")
+                if st["trace"] != installed[k]:
+                    ex.count("stage:in-memory-trace-differs-from-what-was-installed")
+                recs.append((line, "staged", f[1], p, tf, st["files"], k + 1, prev_files, prev_trace,
+                             (kinds_of[f[0]][k], fresh_of[f"{f[0]}_{k}"])))
+                jl.append(f"J|{f[0]}_{k}|{p}|{installed[k]}")
                 prev_files, prev_trace = st["files"], tf[3:6]
+            continue
+        if line.startswith("JM|"):
+            expected, fields = multi_of[f[0]]
+            for k, st in enumerate(json.loads(o.split("|", 3)[3])):
+                tf = [f[0], f[1], str(fields[k])] + expected.split("|")
+                recs.append((line, "several-fields", f[1], fields[k], tf, st["files"], k + 1, None, None,
+                             "field-switched-after-tracing" if fields[k] != p else "tracing-field"))
+                jl.append(f"J|{f[0]}_{k}|{fields[k]}|{expected}")
+            continue
+        if line.startswith("JF|"):
+            runs = json.loads(line.split("|", 3)[3])["runs"]; last_fault = None
+            for k, st in enumerate(json.loads(o.split("|", 3)[3])):
+                lab = faults_of[f[0]][k]
+                if lab is not None and "!raised" in st["files"]:
+                    last_fault = lab; ex.count(f"fault:{lab}:prove-raised"); continue     # the injected failure itself is not judged
+                ex.count(f"fault:{lab}:had-no-effect" if lab else f"after-fault:{last_fault}")
+                tf = [f[0], f[1], f[2]] + accumulated([runs[k]])[0].split("|")
+                recs.append((line, "faulted", f[1], p, tf, st["files"], k + 1, None, None,
+                             ("after-failed-export:" + last_fault if last_fault else "before-any-fault", fresh_of[f"{f[0]}_{k}"])))
+                jl.append(f"J|{f[0]}_{k}|{p}|{accumulated([runs[k]])[0]}")
             continue
         files = dict(x.split("=", 1) for x in f[6:] if "=" in x)
         recs.append((line, "direct" if line.startswith("JT") else "program", f[1], p, f, files, None, None, None, None))
@@ -266,19 +392,27 @@ def explore(ctx, extended=False, focus=None):
         classes = tuple(sorted({value_class(v, p) for v in pubs + privs}))
         ex.distinct.add((src, byte_class(p), len(pubs), len(privs), len(cons), classes))
         ex.count(f"source:{src}"); ex.count(f"field:{byte_class(p)}")
-        fresh = before = None
+        fresh = before = fresh_process = None
         if src == "sequence":
             skind, fresh, before = skind
             ex.count(f"sequence:{skind}")
-        elif stage:
-            ex.count(f"stage:{'first' if stage == 1 else skind}")
+        elif src == "several-fields":
+            ex.count(f"several-fields:{skind}")
+        elif src in ("staged", "faulted"):
+            skind, fresh_process = skind
+            if src == "staged":
+                ex.count(f"stage:{'first' if stage == 1 else skind}")
         for c in classes:
             ex.count(f"witness-class:{c}")
-        bad = judge(ex, line, src, status, p, tf, files, m, stage, prev_files, prev_trace, fresh, before)
+        bad = judge(ex, line, src, status, p, tf, files, m, stage, prev_files, prev_trace, fresh, before, fresh_process)
         for clause, msg in bad:
             sig = {"clause": clause, "field": "32-byte-prime" if byte_class(p) == "32-byte-prime" else "narrower-prime"}
             if src == "sequence":
                 sig["export"] = "sequence:" + skind
+            elif src == "faulted":
+                sig["export"] = skind
+            elif src == "several-fields":
+                sig["export"] = "several-fields:" + skind
             elif stage:
                 sig["export"] = "first" if stage == 1 else "repeated:" + skind
             payload = {"line": line[:80000]}
@@ -287,6 +421,8 @@ def explore(ctx, extended=False, focus=None):
             if clause in ("files-not-written", "export-raised") and src == "program" and last_program_line:
                 payload["previous_line_in_the_same_process"] = last_program_line[:5000]
             ex.violations.append(Violation(sig, f"{clause}: {msg}" + (f" [run #{stage} of a sequence of independent runs in one directory ({skind}), prime of {byte_class(p)[:-6]}]" if src == "sequence" else
+                                                                      f" [export #{stage} of one trace under several primes ({skind}), prime of this export {p}]" if src == "several-fields" else
+                                                                      f" [run #{stage} of a sequence of runs in one interpreter, {skind.replace(':', ' (', 1) + ')' if ':' in skind else skind}, prime of {byte_class(p)[:-6]}]" if src == "faulted" else
                                                                       f" [export #{stage} of a staged trace, prime of {byte_class(p)[:-6]}]" if stage else
                                                                       f" [prime of {byte_class(p)[:-6]}]"), payload))
         if src == "program":
@@ -300,8 +436,26 @@ def replay(ctx, payload):
     w = common.Worker("snarkjs", "worker_files.py")
     try:
         r = payload["replay"]
+        rc = 0
         for l in ([r["previous_line_in_the_same_process"]] if "previous_line_in_the_same_process" in r else []) + [r["line"]]:
-            print(w.run([l])[0][:3000])
+            o = w.run([l])[0]
+            print(o[:3000])
+            if l.startswith(("JS|", "JF|")):
+                # re-judge every export against the trace the line installs (independent decoder only)
+                import json
+                f = l.split("|", 3); spec = json.loads(f[3]); p = int(f[2])
+                inst = accumulated(spec) if l.startswith("JS|") else [accumulated([st])[0] for st in spec["runs"]]
+                for k, st in enumerate(json.loads(o.split("|", 3)[3])):
+                    if "!raised" in st["files"]:
+                        print(f"export #{k + 1}: prove() raised"); continue
+                    try:
+                        bad = r1csread.check(r1csread.read_wtns(bytes.fromhex(st["files"]["witness.wtns"])),
+                                             r1csread.read_r1cs(bytes.fromhex(st["files"]["circuit.r1cs"])), p,
+                                             *parse_trace(["", "", ""] + inst[k].split("|")))
+                    except (r1csread.FormatError, KeyError) as e:
+                        bad = [("malformed", str(e))]
+                    print(f"export #{k + 1}:", bad or "decodes to the installed trace")
+                    rc = 1 if bad else rc
     finally:
         w.close()
-    return 0
+    return rc
